@@ -181,7 +181,7 @@ impl Scenario for Misuse {
         "C19/misuse".into()
     }
     fn run(&self) {
-        let kind = choose(5);
+        let kind = choose(7);
         let calls = Rc::new(Cell::new(0u32));
         let mut keep = ManuallyDrop::new(Keep { state: IncrState::new(), things: vec![] });
         let st = keep.state.clone();
@@ -268,6 +268,55 @@ impl Scenario for Misuse {
                     Err(m) => Err(format!("cyclic-or-expected: {m}")),
                 }
             }
+            5 | 6 => {
+                // cycle through the scope edge of a bind: l = u.bind(..) starts returning a node that
+                // was created inside the closure of b = l.bind(..); variant 6: that closure also
+                // creates and drops a scratch node first
+                op_log(format!("cycle through a bind's scope edge{}", if kind == 6 { ", closure drops a scratch node" } else { "" }));
+                cover(if kind == 6 { "cycle-through-scope-edge-with-scratch-node" } else { "cycle-through-scope-edge" });
+                let u = st.var(fresh());
+                // the second write to u must re-run the bind whatever the values are
+                u.set_cutoff(incremental::Cutoff::Never);
+                let base = st.var(fresh());
+                let other = st.var(fresh());
+                let slot: Rc<RefCell<Option<Incr<SV>>>> = Rc::new(RefCell::new(None));
+                let (s2, basew) = (slot.clone(), base.watch());
+                let c2 = calls.clone();
+                let l = u.bind(move |_| {
+                    count(&c2);
+                    s2.borrow().clone().unwrap_or_else(|| basew.clone())
+                });
+                let (s3, ow) = (slot.clone(), other.watch());
+                let c3 = calls.clone();
+                let scratch = kind == 6;
+                let b = l.bind(move |_| {
+                    count(&c3);
+                    if scratch {
+                        let tmp = ow.map(|x| app(3, &[x.clone()]));
+                        drop(tmp);
+                    }
+                    let kept = ow.map(|x| app(4, &[x.clone()]));
+                    *s3.borrow_mut() = Some(kept.clone());
+                    kept
+                });
+                let o = b.observe();
+                let first = catch(|| st.stabilise());
+                let r = match first {
+                    Err(m) => Err(format!("first stabilise (no cycle yet) panicked: {m}")),
+                    Ok(()) => {
+                        u.set(fresh());
+                        catch(|| st.stabilise())
+                    }
+                };
+                if r.is_ok() {
+                    let got = o.try_get_value();
+                    op_log(format!("after the cycle-closing stabilise the observer returns {got:?}"));
+                }
+                slot.borrow_mut().take();
+                keep.things.push(Box::new(o));
+                keep.things.push(Box::new((u, base, other)));
+                r
+            }
             _ => {
                 // stabilise from inside a node function or an update handler
                 let inside = choose(2);
@@ -310,8 +359,8 @@ impl Scenario for Misuse {
             }
         };
         match (kind, r) {
-            (0..=2, Ok(())) => violation("C19/cycle-accepted", "a dependency cycle through a bind stabilised without a panic".into()),
-            (0..=2, Err(m)) => {
+            (0..=2 | 5 | 6, Ok(())) => violation("C19/cycle-accepted", "a dependency cycle through a bind stabilised without a panic".into()),
+            (0..=2 | 5 | 6, Err(m)) => {
                 if m.contains("symx-hang") {
                     violation("C19/cycle-loops", m);
                 } else if !m.contains("cyclic") {
@@ -324,6 +373,92 @@ impl Scenario for Misuse {
         let k = ManuallyDrop::into_inner(keep);
         if let Err(msg) = catch(move || drop(k)) {
             violation("C19/panic-while-dropping-after-misuse", msg);
+        }
+    }
+}
+
+
+/// A bind that has stabilised on a short branch switches to a pre-existing, already computed
+/// branch: the limit must be enforced by the height adjustment too.
+pub struct BindSwitchLimit {
+    pub max_n: usize,
+}
+
+impl Scenario for BindSwitchLimit {
+    fn name(&self) -> String {
+        "C19/bind_switch_limit".into()
+    }
+    fn run(&self) {
+        // limit n in 3..=max_n ; the tall branch has height n-1 (bind main fits: n) or n (main would need n+1)
+        let n = 3 + choose(self.max_n - 2);
+        let over = choose(2);
+        let tall_h = n - 1 + over;
+        op_log(format!("new_with_height({n}); tall branch of height {tall_h}, bind main would need {}", tall_h + 1));
+        let mut keep = ManuallyDrop::new(Keep { state: IncrState::new_with_height(n), things: vec![] });
+        let r = catch(|| {
+            let st = keep.state.clone();
+            let x0 = fresh();
+            let v = st.var(x0.clone());
+            let s0 = fresh();
+            let sel = st.var(s0.clone());
+            let (tall, eval_tall) = chain(&v.watch(), tall_h - 1, 0);
+            let short = v.watch();
+            let (t2, sh2) = (tall.clone(), short.clone());
+            let b = sel.bind(move |s: &SV| if crate::exec::decide_pred(0, &[s.clone()]) { sh2.clone() } else { t2.clone() });
+            let ot = tall.observe();
+            let ob = b.observe();
+            let r1 = catch(|| st.stabilise());
+            if let Err(m) = r1 {
+                // the first choice may already be the tall branch
+                if over == 1 {
+                    if !m.to_lowercase().contains("height") {
+                        violation("C19/height-panic-without-diagnostic/bind-switch", m);
+                    }
+                } else {
+                    violation("C19/legal-height-rejected", format!("limit {n}: {m}"));
+                }
+                keep.things.push(Box::new((ot, ob, v, sel)));
+                return;
+            }
+            let first_short = crate::exec::decide_pred(0, &[s0.clone()]);
+            if !first_short && over == 1 {
+                violation("C19/too-tall-graph-accepted/bind-first-run", format!("limit {n}: the bind returned a branch of height {tall_h} and was accepted"));
+            }
+            // switch
+            let s1 = fresh();
+            sel.set(s1.clone());
+            let r2 = catch(|| st.stabilise());
+            let now_short = crate::exec::decide_pred(0, &[s1.clone()]);
+            if first_short && !now_short {
+                cover("bind-switched-to-taller-existing-branch");
+                if over == 1 {
+                    expect_height_panic("bind-switch", r2);
+                } else {
+                    match r2 {
+                        Err(m) => violation("C19/legal-height-rejected", format!("limit {n}, bind over a branch of height {tall_h}: {m}")),
+                        Ok(()) => {
+                            if let Ok(val) = ob.try_get_value() {
+                                let w = eval_tall(&x0);
+                                let (v2, w2) = (val.clone(), w.clone());
+                                require("C19/value-at-height-limit", F::eq(&val, &w), move || format!("bind returned {v2:?}, expected {w2:?}"));
+                            }
+                        }
+                    }
+                }
+            } else if let Err(m) = r2 {
+                if !(over == 1 && !now_short) {
+                    violation("C19/unexpected-panic", m);
+                }
+            }
+            keep.things.push(Box::new((ot, ob, v, sel)));
+        });
+        if let Err(msg) = r {
+            violation("C19/unexpected-panic", msg);
+            return;
+        }
+        let k = ManuallyDrop::into_inner(keep);
+        if let Err(msg) = catch(move || drop(k)) {
+            violation("C19/panic-while-dropping-after-limit-panic", msg);
         }
     }
 }
